@@ -47,14 +47,21 @@ THEOREMS = [
     'C17.DObj.solve_current', 'C17.DObj.solve_forgets', 'C17.DObj.solve_list',
     # no smallness assumption: the displacement is a minimal candidate image; atoms with one / no neighbour
     'C17.displacement_minimal', 'C17.single_and_no_neighbour', 'C17.ddvectors_length',
+    # the conflict resolution of match_pq for ANY number of competing current vectors (no hypothesis on the lists)
+    'C17.qpPairs_inv', 'C17.matchPQ_one_q_per_p', 'C17.matchPQ_winner_closest', 'C17.matchPQ_claimed_p_paired',
+    'C17.solveG_homogeneous_competing',
+    # where the neighbour list comes from (neighbors= / cutoff= / attribute / refusal)
+    'C17.nbrSource_precedence', 'C17.slipVectorCall_sources', 'C17.strainSources_spec',
 ]
 PARTIAL = {
-    'matchPQ_pairing': 'pairing correctness of match_pq (matchPQ_pairing_partial, hence solveG/strainG_homogeneous) is proved '
-                       'under the hypothesis that every current neighbour vector q has a best reference vector p inside '
-                       'theta_max and distinct q pick distinct p. The hypothesis is derived from geometry only for the '
-                       'undeformed crystal (solveG_undeformed); that a small deformation of a perfect crystal satisfies it '
-                       'depends on the angular separation of the shell and is checked on the implementation '
-                       '(oracle: G = F^-T at every atom), not proved',
+    'matchPQ_pairing': 'the conflict resolution of match_pq is proved for arbitrary lists (one q per p, the winner is the q closest '
+                       'to r1 among those that chose the p: qpPairs_inv, matchPQ_one_q_per_p, matchPQ_winner_closest), and '
+                       'G = F^-T follows when every foreign q competes with a strictly closer true image '
+                       '(solveG_homogeneous_competing) or when distinct q pick distinct p (matchPQ_pairing_partial). That a '
+                       'small deformation of a perfect crystal with complete shells satisfies these geometric hypotheses '
+                       '(angular separation of the shells, radii) is derived only for the undeformed crystal '
+                       '(solveG_undeformed); for deformed ones it is checked on the implementation (oracle: G = F^-T at every '
+                       'atom, for every combination of shell counts and theta_max), not proved',
     'lstsq': 'numpy.linalg.lstsq is a parameter: G is characterised by the normal equations QtQ G = QtP with QtQ '
              'invertible; the residual of the real lstsq result is checked on every correspondence case',
     'disregistry_translation': 'translation/renumbering invariance is proved for displacement, slip vector, differential '
@@ -88,7 +95,14 @@ RULE = ('reference crystals fcc/bcc/hcp/L1_2/B2/two-type hcp/bct-described fcc/[
         'deformed too, atoms optionally moved by box vectors), smooth periodic displacement fields for non-zero Nye, '
         'rigid slips of a half crystal on planes between atomic layers (pbc on and off along the normal, wrapped and '
         'unwrapped, dyadic = exact regime and decimal), plane-dependent fields on top for disregistry; clusters with '
-        'competing / unmatched q vectors for the pairing loop; distinct = distinct (crystal, size, deformation, cutoff, '
+        'competing / unmatched q vectors for the pairing loop (up to five candidates per p, any order); reference sets and '
+        'current neighbour lists with DIFFERENT numbers of complete shells (1-3 each, fcc/L1_2/bcc/B2, also sheared cells) '
+        'under theta_max 15..50 degrees (several q compete for one p), neighbours listed in another order than in the '
+        'reference; non-periodic blocks under homogeneous F (rank-deficient sets at edges and corners); sinusoidal shear '
+        'fields (non-symmetric grad G); every entry point with every combination of neighbors= / cutoff= / a `neighbors` '
+        'attribute on the system (three different lists behind them) incl. the refusals; joint translations up to 1e6 '
+        '(disregistry: along the normal up to 1/8 plane spacing / 1e-5), lengths scaled by 2**-300 .. 2**300 '
+        '(disregistry 2**-16 .. 2**16); distinct = distinct (crystal, size, deformation, cutoff, '
         'op); non-trivial = deformation non-zero (match: the loop discards or leaves out something)')
 ASSUMPTIONS = [
     'numpy.linalg.lstsq returns the solution of the normal equations for full-column-rank Q (residual of the real '
@@ -581,7 +595,10 @@ def _lstsq_residual(s1, nl1, pvec, G, cosmax, np):
 def _mk_nlist(am, system, lists):
     """NeighborList object holding exactly the given lists."""
     np = _np()
-    nl = am.NeighborList(system=system, cutoff=2.0)
+    # (the object is only a carrier for the arrays: built on a two-atom dummy, so that neither the scale of `system`
+    #  nor atoms outside its cell ever reach the list builder)
+    dummy = am.System(atoms=am.Atoms(atype=1, pos=[[1.0, 1.0, 1.0], [2.5, 1.0, 1.0]]), box=am.Box.cubic(10.0))
+    nl = am.NeighborList(system=dummy, cutoff=2.0)
     cmax = max(len(l) for l in lists)
     arr = np.zeros((len(lists), cmax + 1), dtype='int64')
     for i, l in enumerate(lists):
@@ -781,6 +798,19 @@ def _corr_slip_one(ctx, rng, ref, caseseed, it0, it, dyadic):
     if dec_disp is not None and not dec_disp.all():
         return                                  # (a displacement at a nearest-image tie: the profile is not compared)
     _corr_disreg(ctx, s0, s1, m, nn, planepos, exact, dict(info, m=m, n=nn, planepos=planepos), canon)
+    if it % 3 != 1:
+        # both systems, the box and planepos far from the origin (1e2 .. 1e6 along the normal and in plane): the model
+        # carries numpy.isclose's tolerances, so the regime in which planes / columns merge is tied as well
+        mags = [2.0 ** 7, 2.0 ** 10, 2.0 ** 13, 2.0 ** 15, 2.0 ** 17, 2.0 ** 20] if dyadic else [1e2, 1e3, 6e3, 1e4, 1e5, 1e6]
+        tt = np.array([rng.randint(-40, 40) / 8 for _ in range(3)])
+        for k_ in range(3):
+            if k_ == ax or rng.random() < 0.4:
+                tt[k_] += rng.choice([1, -1]) * rng.choice(mags)
+        s0d = _system(s0, s0.atoms.pos + tt, origin=s0.box.origin + tt, pbc=sc['pbc'])
+        s1d = _system(s0d, s1.atoms.pos + tt, pbc=sc['pbc'])
+        ppd = (np.array(planepos) + tt).tolist()
+        _corr_disreg(ctx, s0d, s1d, m, nn, ppd, exact, dict(info, m=m, n=nn, planepos=ppd, translation=tt.tolist()),
+                     canon + ('translated', tuple(tt)))
     if it % 2 == 1:
         # a smooth non-rigid field on top: means over columns and interpolation do real work
         # (it differs from plane to plane and between the halves: the choice of the two adjoining planes matters)
@@ -873,6 +903,11 @@ def _corr_strain_one(ctx, rng, ref, nl0, caseseed, it0, it):
         if F is not None and it % 4 == 2:
             # same configuration with atoms moved by box vectors (lists are built before: nlist needs atoms in the box)
             s1 = _system(s1, _wrapshift(rng, s1, np))
+        if it % 3 == 1:
+            # current and reference lists in DIFFERENT orders (the pairing must not rely on the order)
+            nl1 = _shuffled_nlist(am, rng, s1, nl1, n)
+            if rng.random() < 0.5:
+                nl0 = _shuffled_nlist(am, rng, s0, nl0, n)
         st = am.defect.Strain(s1, neighbors=nl1, basesystem=s0, baseneighbors=nl0)
     else:
         # the cutoff path builds both lists itself (system's and basesystem's)
@@ -957,6 +992,9 @@ def _corr_match(ctx, caseseed, N):
             qs.append(p * rng.choice([1.0, 1.0, 1.25, 0.75]) + np.array([rng.randint(-2, 2) / 16 for _ in range(3)]))
             if r > 0.7:     # a second, longer candidate for the same p
                 qs.append(p * rng.choice([1.5, 2.0]) + np.array([rng.randint(-2, 2) / 16 for _ in range(3)]))
+            if r > 0.8:     # ... and more of them, longer and shorter, listed in any order
+                for fct in rng.sample([0.5, 0.625, 1.75, 2.5, 3.0, 1.375], rng.randint(1, 3)):
+                    qs.append(p * fct + np.array([rng.randint(-2, 2) / 16 for _ in range(3)]))
         if rng.random() < 0.4:
             qs.append(np.array([rng.randint(-8, 8) / 4 for _ in range(3)]) + np.array([1 / 32, 1 / 64, 0]))
         uq = []
@@ -1031,6 +1069,10 @@ def correspond(ctx):
         _guarded_case(ctx, 'corr', _strain_sequence, rng.getrandbits(48), it, True)
     for it in range(ctx.n(6, 40)):
         _guarded_case(ctx, 'corr', _dd_sequence, rng.getrandbits(48), it, True)
+    for it in range(ctx.n(5, 40)):
+        _guarded_case(ctx, 'corr', _shells, rng.getrandbits(48), it, True)
+    for it in range(ctx.n(2, 12)):
+        _guarded_case(ctx, 'corr', _sources, rng.getrandbits(48), it, True)
 
 
 # ----------------------------------------------------------------------------------------
@@ -1247,6 +1289,10 @@ def _search_slip_one(ctx, rng, ref, caseseed, it0, it, dyadic):
     nn = [0.0] * 3
     planepos = [0.0] * 3
     m[mdir], nn[ax], planepos[ax] = 1.0, 1.0, sc['mid']
+    if it % 2 == 1:
+        for k_ in range(3):           # (any point of the slip plane defines it)
+            if k_ != ax:
+                planepos[k_] = rng.randint(-64, 64) / 4
     lv = _levels(s0.atoms.pos[:, ax])
     above = min(v for v in lv if v > sc['mid'])
     below = max(v for v in lv if v < sc['mid'])
@@ -1310,7 +1356,21 @@ def _search_slip_one(ctx, rng, ref, caseseed, it0, it, dyadic):
     # (entries whose nearest image is not decided by a margin are left out: rounding may pick the other image)
     tolt = 1e-9 * L
     masks = {'displacement': dec_disp, 'slip_vector': dec_slip, 'ddvectors': dec_dd}
+    if coord is not None and (len(coord) < 1 or (np.diff(coord) <= 0).any()):
+        fail('disregistry:coord', f'disregistry: the coordinates returned are not strictly increasing unique values: {coord.tolist()[:12]}',
+             m=m, n=nn, planepos=planepos)
+    # small and LARGE common translations (1e2 .. 1e6, along the normal, in plane, all directions)
     t = np.array([rng.randint(-40, 40) / 8 for _ in range(3)])
+    tclass = rng.choice(['small', 'normal', 'inplane', 'all', 'all'])
+    if tclass != 'small':
+        mags = [2.0 ** 7, 2.0 ** 10, 2.0 ** 13, 2.0 ** 17, 2.0 ** 20] if dyadic else [1e2, 1e3, 1e4, 1e5, 1e6]
+        for k_ in range(3):
+            if tclass == 'all' or (tclass == 'normal') == (k_ == ax):
+                t[k_] += rng.choice([1, -1]) * rng.choice(mags)
+    tbig = float(np.abs(t).max())
+    tolt = tolt + 200 * 2.3e-16 * tbig
+    ctx.extra['translation_max'] = max(ctx.extra.get('translation_max', 0.0), tbig)
+    snap = (s0.atoms.pos.tobytes(), s1.atoms.pos.tobytes(), s0.box.vects.tobytes())
     s0t = _system(s0, s0.atoms.pos + t, origin=s0.box.origin + t, pbc=sc['pbc'])
     s1t = _system(s0t, s1.atoms.pos + t, pbc=sc['pbc'])
     try:
@@ -1330,16 +1390,81 @@ def _search_slip_one(ctx, rng, ref, caseseed, it0, it, dyadic):
         elif mk.any() and np.abs(x - y)[mk].max() > tolt * 20:
             fail('translation:' + nm, f'{nm} changes by {np.abs(x - y)[mk].max():.3e} when both systems (and the box) are '
                  f'translated by {t.tolist()}', translation=t.tolist())
+    if snap != (s0.atoms.pos.tobytes(), s1.atoms.pos.tobytes(), s0.box.vects.tobytes()):
+        fail('inputs-modified', 'displacement / slip_vector / DifferentialDisplacement / disregistry changed the positions or the box of a '
+             'system handed to them')
     if coord is not None and dec_disp[adj].all():
-        pp = (np.array(planepos) + t).tolist()
-        try:
-            c2, d2 = am.defect.disregistry(s0t, s1t, m=m, n=nn, planepos=pp)
-            if not _same_profile(coord + t[mdir], dis, c2, d2, tolt * 2, np):
-                fail('translation:disregistry', f'disregistry changes when both systems, the box and planepos are translated by {t.tolist()}',
-                     translation=t.tolist())
-        except Exception as e:   # noqa
-            fail('translation:disregistry', f'disregistry raised {type(e).__name__}: {e} after a joint translation',
-                 translation=t.tolist())
+        # disregistry groups atoms into planes with numpy.isclose (relative tolerance 1e-5 of the coordinate along n):
+        # the sweep along the normal goes up to where that tolerance reaches 1/8 of the smallest plane spacing
+        # (beyond: candidate `disregistry:isclose-far-origin`, see docs), in plane up to 1e6
+        gap = float(np.diff(np.asarray(lv)).min())
+        ymax = float(np.abs(s0.atoms.pos[:, ax]).max())
+        bound = gap / 8e-5 - ymax
+        td = np.array([rng.randint(-40, 40) / 8 for _ in range(3)])
+        fr_ = rng.choice([0.01, 0.12, 0.5, 0.95])
+        tn = fr_ * bound
+        if dyadic:
+            tn = 2.0 ** math.floor(math.log2(tn)) if tn >= 1 else 0.0
+        else:
+            tn = round(tn, 2)
+        td[ax] += rng.choice([1, -1]) * tn
+        for k_ in range(3):
+            if k_ != ax and rng.random() < 0.5:
+                td[k_] += rng.choice([1, -1]) * rng.choice([2.0 ** 7, 2.0 ** 13, 2.0 ** 20] if dyadic else [1e2, 1e4, 1e6])
+        for tt in ((t, td) if tbig + ymax <= gap / 8e-5 else (td,)):
+            s0d = _system(s0, s0.atoms.pos + tt, origin=s0.box.origin + tt, pbc=sc['pbc'])
+            s1d = _system(s0d, s1.atoms.pos + tt, pbc=sc['pbc'])
+            pp = (np.array(planepos) + tt).tolist()
+            told = 2e-9 * L + 400 * 2.3e-16 * float(np.abs(tt).max())
+            ctx.stats.case('oracle:disreg-translated', canon + (tuple(tt),))
+            ctx.extra['disreg_translation_max_normal'] = max(ctx.extra.get('disreg_translation_max_normal', 0.0), abs(float(tt[ax])))
+            try:
+                c2, d2 = am.defect.disregistry(s0d, s1d, m=m, n=nn, planepos=pp)
+                if not _same_profile(coord + tt[mdir], dis, c2, d2, told, np):
+                    kk = int(np.abs(d2 - dis[0]).max(1).argmax()) if len(d2) else 0
+                    fail('translation:disregistry', f'disregistry changes when both systems, the box and planepos are translated by '
+                         f'{tt.tolist()}: at coordinate {c2[kk] if len(c2) else None} it is {d2[kk].tolist() if len(d2) else None}, untranslated '
+                         f'{dis[0].tolist()} = the imposed slip (plane spacing {gap:.4f}, {len(lv)} planes)', translation=tt.tolist())
+            except Exception as e:   # noqa
+                fail('translation:disregistry', f'disregistry raised {type(e).__name__}: {e} after a joint translation by {tt.tolist()}',
+                     translation=tt.tolist())
+    # power-of-two length scales: every result scales with the lengths (no absolute length hidden in the code) ----------
+    kexp = rng.choice([-300, -100, -16, -8, 8, 16, 100, 300])
+    fsc = 2.0 ** kexp
+    try:
+        s0s = _system(s0, s0.atoms.pos * fsc, vects=s0.box.vects * fsc, origin=s0.box.origin * fsc, pbc=sc['pbc'])
+        s1s = _system(s0s, s1.atoms.pos * fsc, pbc=sc['pbc'])
+    except Exception as e:   # noqa  (building boxes at this scale is not this property's subject)
+        s0s = None
+        ctx.extra['scale_not_constructible'] = ctx.extra.get('scale_not_constructible', 0) + 1
+    if s0s is not None:
+        ctx.stats.case('oracle:scaled', canon + (kexp,))
+        ress = _guard(lambda: (am.displacement(s0s, s1s), am.defect.slip_vector(s0s, s1s, neighbors=nl0),
+                               am.defect.DifferentialDisplacement(s0s, s1s, neighbors=nl0, reference=0).ddvectors))
+        if isinstance(ress, _Raised):
+            fail('scale:raises', f'{ress.text} when all lengths are multiplied by 2**{kexp}', scale_exponent=kexp)
+        else:
+            for nm, x, y in zip(('displacement', 'slip_vector', 'ddvectors'), res0, ress):
+                mk = masks[nm]
+                if x.shape != y.shape:
+                    fail('scale:' + nm, f'{nm}: shape changes from {x.shape} to {y.shape} when all lengths are multiplied by 2**{kexp}',
+                         scale_exponent=kexp)
+                elif mk.any() and (not np.isfinite(y[mk]).all() or np.abs(y / fsc - x)[mk].max() > 1e-12 * L):
+                    kk = int(np.where(mk[:, None], np.abs(y / fsc - x), 0).max(1).argmax())
+                    fail('scale:' + nm, f'{nm}[{kk}] = {y[kk].tolist()} after all lengths were multiplied by 2**{kexp}; '
+                         f'2**{kexp} x the unscaled result {x[kk].tolist()} expected', scale_exponent=kexp)
+        if coord is not None and dec_disp[adj].all() and -16 <= kexp <= 16:
+            # (numpy.isclose's absolute tolerance 1e-8 is what groups a plane lying at coordinate ~0 +- rounding noise, and what
+            #  merges everything once plane spacings fall below ~1e-8: outside 2**-16 .. 2**16 the grouping of the unchanged
+            #  code changes: candidates `disregistry:isclose-small-lengths` / `disregistry:isclose-plane-at-zero`, see docs)
+            try:
+                c2, d2 = am.defect.disregistry(s0s, s1s, m=m, n=nn, planepos=(np.array(planepos) * fsc).tolist())
+                if not _same_profile(coord, dis, c2 / fsc, d2 / fsc, 2e-9 * L, np):
+                    fail('scale:disregistry', f'disregistry does not scale with the lengths (all lengths multiplied by 2**{kexp})',
+                         scale_exponent=kexp)
+            except Exception as e:   # noqa
+                fail('scale:disregistry', f'disregistry raised {type(e).__name__}: {e} after all lengths were multiplied by 2**{kexp}',
+                     scale_exponent=kexp)
     # invariance: consistent renumbering ------------------------------------------------------
     perm = list(range(n))
     rng.shuffle(perm)                 # new index of old atom i is perm[i]
@@ -1439,15 +1564,36 @@ def _search_homog_one(ctx, rng, ref, nl0, caseseed, it0, it):
     n = s0.natoms
     cut = shells[0][0] * a
     F = _rand_F(rng, kind)
+    pbcv = (True, True, True)
+    if it % 5 == 3:
+        # periodicity switched off in 1-3 directions: surface / edge / corner atoms with few neighbours, down to
+        # coplanar, collinear and single-vector sets (rank-deficient least squares)
+        pbcv = tuple(rng.choice([(False, True, True), (True, False, True), (True, True, False), (False, False, True),
+                                 (False, True, False), (False, False, False), (False, False, False)]))
+        s0 = _system(s0, s0.atoms.pos.copy(), pbc=pbcv)
+        nl0 = s0.neighborlist(cutoff=cut)
     s1 = _deform(s0, F)
     wrapped = it % 4 == 1
     nl1 = s1.neighborlist(cutoff=cut * 1.04)
+    if it % 3 == 2:
+        # the neighbours of every atom listed in another order than in the reference list
+        nl1 = _shuffled_nlist(am, rng, s1, nl1, n)
+    # atoms whose reference vectors span three dimensions (singular values of the set): G = F^-T is claimed there; for
+    # the others lstsq returns the minimum-norm solution, which still maps every current vector onto its reference vector
+    full = np.ones(n, dtype=bool)
+    if not all(pbcv):
+        for i_ in range(n):
+            P_ = np.atleast_2d(s0.dvect(i_, nl0[i_])) if len(nl0[i_]) else np.zeros((0, 3))
+            sv_ = np.linalg.svd(P_, compute_uv=False) if len(P_) else np.zeros(1)
+            full[i_] = len(P_) >= 3 and len(sv_) == 3 and sv_[-1] > 0.05 * sv_[0]
+        ctx.extra['homog_rank_deficient_atoms'] = ctx.extra.get('homog_rank_deficient_atoms', 0) + int((~full).sum())
+    fidx = np.where(full)[0]
     if wrapped:
         # same configuration, atoms moved by box vectors (the list is built before: nlist needs atoms in the box)
         s1 = _system(s1, _wrapshift(rng, s1, np))
     base = {'op': 'search-homog', 'caseseed': caseseed, 'it': it0, 'variant': it, 'crystal': name, 'a': a, 'size': list(size),
-            'F': F, 'kind': kind, 'cutoff': cut, 'wrapped': wrapped}
-    canon = (name, a, size, repr(F), cut, wrapped)
+            'F': F, 'kind': kind, 'cutoff': cut, 'wrapped': wrapped, 'pbc': list(pbcv)}
+    canon = (name, a, size, repr(F), cut, wrapped, pbcv)
     ctx.stats.case('oracle:homog:' + kind, canon, sample=base)
     Fq = _fr_mat(F)
     Finv = _inv3(Fq)
@@ -1474,7 +1620,7 @@ def _search_homog_one(ctx, rng, ref, nl0, caseseed, it0, it):
         fail('displacement', f'displacement of atom {k} is {d[k].tolist()}, imposed (F-I)x = {exp_disp[k].tolist()}', k)
     # differential displacement: u_j - u_i = (F - I) d0_ij for every reference neighbour pair --------------
     FmI = np.array(F) - np.identity(3)
-    exp_dd = np.concatenate([np.atleast_2d(s0.dvect(i, nl0[i])) @ FmI.T for i in range(n) if len(nl0[i])])
+    exp_dd = np.concatenate([np.atleast_2d(s0.dvect(i, nl0[i])) @ FmI.T for i in range(n) if len(nl0[i])] or [np.zeros((0, 3))])
     try:
         dd = am.defect.DifferentialDisplacement(s0, s1, neighbors=nl0, reference=0).ddvectors
         if dd.shape != exp_dd.shape:
@@ -1499,24 +1645,47 @@ def _search_homog_one(ctx, rng, ref, nl0, caseseed, it0, it):
             continue
         if G0 is None:
             G0 = G
-        k = _bad(G.reshape(n, 9), np.tile(Gf.ravel(), (n, 1)), tol)
+        if not np.isfinite(G).all():
+            k = int(np.argmin(np.isfinite(G).reshape(n, -1).all(1)))
+            fail('Strain.G', f'Strain({how}).G[{k}] = {G[k].tolist()} (atom with {len(nl1[k])} neighbours, pbc {list(pbcv)})', k)
+            continue
+        k = _bad(G[fidx].reshape(len(fidx), 9), np.tile(Gf.ravel(), (len(fidx), 1)), tol)
         if k is not None:
-            fail('Strain.G', f'Strain({how}).G[{k}] = {G[k].tolist()}, inverse transpose of F = {Gf.tolist()}', k)
+            k = int(fidx[k])
+            fail('Strain.G', f'Strain({how}).G[{k}] = {G[k].tolist()}, inverse transpose of F = {Gf.tolist()} '
+                 f'({len(nl1[k])} neighbours, pbc {list(pbcv)})', k)
+        if not full.all() and how == 'neighbors=':
+            # rank-deficient sets: the returned G still maps every current neighbour vector onto its reference vector
+            for i_ in np.where(~full)[0]:
+                if len(nl0[i_]) == 0 or sorted(int(j) for j in nl0[i_]) != sorted(int(j) for j in nl1[i_]):
+                    continue
+                Qi = np.atleast_2d(s1.dvect(int(i_), nl0[i_]))
+                Pi = np.atleast_2d(s0.dvect(int(i_), nl0[i_]))
+                if np.abs(Qi @ G[i_] - Pi).max() > 1e-9 * a:
+                    fail('Strain.G:rank-deficient', f'Strain({how}).G[{int(i_)}] = {G[i_].tolist()} does not map the {len(Qi)} current '
+                         f'neighbour vector(s) of this surface atom onto the reference vectors (residual {np.abs(Qi @ G[i_] - Pi).max():.3e})',
+                         int(i_))
+                    break
         for nm, val, want in (('strain', st.strain, Ef), ('rotation', st.rotation, Rf)):
-            k = _bad(val.reshape(n, 9), np.tile(want.ravel(), (n, 1)), tol)
+            k = _bad(val[fidx].reshape(len(fidx), 9), np.tile(want.ravel(), (len(fidx), 1)), tol)
             if k is not None:
+                k = int(fidx[k])
                 fail('Strain.' + nm, f'Strain({how}).{nm}[{k}] = {val[k].tolist()}, from F^-T: {want.tolist()}', k)
         for nm, val, want in (('invariant1', st.invariant1, i1), ('invariant2', st.invariant2, i2), ('invariant3', st.invariant3, i3)):
-            dv = np.abs(val - float(want))
-            if not np.isfinite(val).all() or dv.max() > tol:
-                k = int(dv.argmax())
+            dv = np.abs(val - float(want))[fidx]
+            if len(fidx) and (not np.isfinite(val[fidx]).all() or dv.max() > tol):
+                k = int(fidx[dv.argmax()])
                 fail('Strain.' + nm, f'Strain({how}).{nm}[{k}] = {val[k]}, from F^-T: {float(want)}', k)
-        ny = st.nye
-        if not np.isfinite(ny).all() or np.abs(ny).max() > 1e-8 / a:
+        ny = _guard(lambda: st.nye)
+        if isinstance(ny, _Raised):
+            fail('Strain:raises', f'Strain({how}).nye raised {ny.text} (pbc {list(pbcv)})')
+        elif full.all() and (not np.isfinite(ny).all() or np.abs(ny).max() > 1e-8 / a):
             k = int(np.abs(ny).reshape(n, -1).max(1).argmax())
             fail('Strain.nye', f'Strain({how}).nye[{k}] = {ny[k].tolist()} for a homogeneous deformation (expected 0)', k)
-    if it % 3 == 0 and G0 is not None:
-        pv = np.array([np.atleast_2d(s0.dvect(i, nl0[i])) for i in range(n)])
+    if it % 3 == 0 and G0 is not None and full.all():
+        pv = [np.atleast_2d(s0.dvect(i, nl0[i])) for i in range(n)]
+        if len({len(p_) for p_ in pv}) == 1:
+            pv = np.array(pv)
         try:
             old = am.defect.nye_tensor(s1, pv, neighbors=nl1)
         except Exception as e:   # noqa
@@ -1535,10 +1704,19 @@ def _search_homog_one(ctx, rng, ref, nl0, caseseed, it0, it):
         return
     # invariance: joint translation, consistent renumbering --------------------------------------
     t = np.array([rng.randint(-40, 40) / 8 for _ in range(3)])
+    if it % 2 == 0:
+        for k_ in range(3):
+            if rng.random() < 0.6:
+                t[k_] += rng.choice([1, -1]) * rng.choice([1e2, 1e3, 1e4, 1e5, 1e6])
+    tol = tol + 400 * 2.3e-16 * float(np.abs(t).max()) / a
     s0t = _system(s0, s0.atoms.pos + t, origin=s0.box.origin + t)
     s1t = _system(s1, s1.atoms.pos + t, origin=s1.box.origin + t)
     if wrapped:
-        s1 = _system(s1, s1.box.position_relative_to_cartesian(s1.box.position_cartesian_to_relative(s1.atoms.pos) % 1.0))
+        rel_ = s1.box.position_cartesian_to_relative(s1.atoms.pos)
+        rel_ = np.where(np.array(pbcv)[None, :], rel_ % 1.0, rel_)
+        s1 = _system(s1, s1.box.position_relative_to_cartesian(rel_))
+    if not full.all():
+        return          # (minimum-norm solutions of the rank-deficient atoms: no invariance claim)
     try:
         Gt = am.defect.Strain(s1t, neighbors=nl1, basesystem=s0t, baseneighbors=nl0).G
         if np.abs(Gt - G0).max() > tol:
@@ -1793,6 +1971,11 @@ def _strain_sequence(ctx, caseseed, it, tie):
         [(R_READ, None), (R_SYS, None), (R_SOLVE, None), (R_READ, None)],
         [(R_READ, None), (R_BUILD, None), (R_CLEAR, None), (R_READ, None)],
         [(R_READ, None), (R_THETA, small), (R_SETP, None), (R_SOLVE, rng.choice([25.0, 30.0])), (R_READ, None)],
+        # re-solving with the SAME explicit theta_max after the reference / the system changed
+        [(R_READ, None), (R_SETP, None), (R_SOLVE, 'same'), (R_READ, None)],
+        [(R_READ, None), (R_BUILD, None), (R_SOLVE, 'same'), (R_READ, None)],
+        [(R_READ, None), (R_SYS, None), (R_SOLVE, 'same'), (R_READ, None)],
+        [(R_SOLVE, 'same'), (R_READ, None), (R_SETP, None), (R_SOLVE, 'same'), (R_READ, None), (R_SYS, None), (R_SOLVE, 'same'), (R_READ, None)],
     ]
     plan = list(rng.choice(motifs)) if rng.random() < 0.5 else []
     for step in range(nops):
@@ -1915,10 +2098,11 @@ def _strain_sequence(ctx, caseseed, it, tie):
                     ask(f'so theta {cm.fr(float(th))} {cm.fr(cosd(float(th)))}')
             elif r < 0.9:
                 # (after a small theta_max, re-solving with the usual one must bring everything back)
-                th = rng.choice([None, None, 25.0, 28.0, 30, 0, 200.0] + ([1.0, 2.5, 5.0] if tie else [])
+                same = int(cur['theta']) if cur['theta'] == int(cur['theta']) and rng.random() < 0.5 else cur['theta']
+                th = rng.choice([None, None, 25.0, 28.0, 30, 0, 200.0, same, same] + ([1.0, 2.5, 5.0] if tie else [])
                                 + ([27.0, 27.0, 26.0] if cur['theta'] < 20 else []))
                 if forced is not None:
-                    th = forced
+                    th = same if forced == 'same' else forced
                 note('solve_G()' if th is None else f'solve_G(theta_max={th})')
                 res = _guard(lambda: st.solve_G() if th is None else st.solve_G(theta_max=th))
                 out = ask('so solve 0' if th is None else f'so solve 1 {cm.fr(float(th))} {cm.fr(cosd(float(th)))}')
@@ -2305,6 +2489,633 @@ def _search_p_supply(ctx, caseseed, it):
                     break
 
 
+# ----------------------------------------------------------------------------------------
+# reference set and current neighbour list with DIFFERENT shell counts, theta_max between the inter-shell angles
+# ----------------------------------------------------------------------------------------
+# cutoffs (units of a) half-way between consecutive shells, coordination after 1 / 2 / 3 shells, cells per edge so that
+# every periodic width exceeds twice the largest cutoff of a crystal strained by a few per cent
+_SHELLS = {'fcc': ([0.85, 1.11, 1.32], [12, 18, 42], 3, lambda am, a: [[0, 0, 0], [.5, .5, 0], [.5, 0, .5], [0, .5, .5]], None),
+           'L12': ([0.85, 1.11, 1.32], [12, 18, 42], 3, lambda am, a: [[0, 0, 0], [.5, .5, 0], [.5, 0, .5], [0, .5, .5]], [1, 2, 2, 2]),
+           'bcc': ([0.93, 1.2, 1.53], [8, 14, 26], 4, lambda am, a: [[0, 0, 0], [.5, .5, .5]], None),
+           'B2': ([0.93, 1.2, 1.53], [8, 14, 26], 4, lambda am, a: [[0, 0, 0], [.5, .5, .5]], [1, 2])}
+
+
+def _shuffled_nlist(am, rng, system, nl, n):
+    """the same neighbour list with every atom's neighbours listed in another order."""
+    lists = []
+    for i in range(n):
+        l = [int(j) for j in nl[i]]
+        rng.shuffle(l)
+        lists.append(l)
+    return _mk_nlist(am, system, lists)
+
+
+def _shells_case(rng):
+    """homogeneously deformed fcc/bcc-type crystal, reference set with kp shells, current list with kq shells."""
+    np = _np()
+    import atomman as am
+    name = rng.choice(sorted(_SHELLS))
+    cuts, coords, ncell, frac, atype = _SHELLS[name]
+    a = rng.choice([4.05, 3.3, 2.87, 4.0, 3.52])
+    size = [ncell] * 3
+    if rng.random() < 0.4:
+        size[rng.randrange(3)] += 1
+    s0 = am.System(atoms=am.Atoms(atype=atype or 1, pos=frac(am, a)), box=am.Box.cubic(a), scale=True).supersize(*size)
+    tag = ''
+    if rng.random() < 0.35:
+        sh = _shear(rng, s0, size, cuts[2] * a * 1.05)
+        if sh is not None:
+            s0, tag = sh[0], '/sheared' + sh[1]
+    kp, kq = rng.choice([(1, 3), (1, 3), (1, 2), (2, 3), (2, 3), (3, 1), (2, 1), (3, 2), (1, 1), (3, 3)])
+    theta = rng.choice([15, 20, 27, 31, 33, 35, 38, 42, 47, 50])
+    F = _rand_F(rng, rng.choice(['general', 'general', 'rotation', 'strain']))
+    s1 = _deform(s0, F)
+    nl0 = s0.neighborlist(cutoff=cuts[kp - 1] * a)
+    nl1 = s1.neighborlist(cutoff=cuts[kq - 1] * a)
+    n = s0.natoms
+    complete = bool((nl0.coord == coords[kp - 1]).all() and (nl1.coord == coords[kq - 1]).all())
+    order = rng.choice(['builder', 'builder', 'shuffled'])
+    if order == 'shuffled':
+        nl1 = _shuffled_nlist(am, rng, s1, nl1, n)
+        if rng.random() < 0.5:
+            nl0 = _shuffled_nlist(am, rng, s0, nl0, n)
+    return {'name': name + tag, 'a': a, 'size': size, 's0': s0, 's1': s1, 'F': F, 'kp': kp, 'kq': kq, 'theta': theta,
+            'nl0': nl0, 'nl1': nl1, 'complete': complete, 'order': order, 'cutp': cuts[kp - 1] * a, 'cutq': cuts[kq - 1] * a}
+
+
+def _pairing_claim(P, Q, Fm, cosmax, np):
+    """independent decision (documented rule: every q takes the p at the smallest angle inside theta_max; of several q
+    taking one p the one whose length is closest to the shortest |p| keeps it): (claimed, competitors) — claimed when
+    every surviving pair is a true pair q = F p, at least three of them are independent, and no decision is closer than
+    1e-7 to a tie or to theta_max."""
+    pm = np.linalg.norm(P, axis=1)
+    qm = np.linalg.norm(Q, axis=1)
+    C = (Q @ P.T) / qm[:, None] / pm[None, :]
+    best = C.argmax(1)
+    top = C[np.arange(len(Q)), best]
+    if (np.abs(C - cosmax) < 1e-7).any():
+        return False, 0
+    if C.shape[1] > 1:
+        srt = np.sort(C, axis=1)
+        if ((srt[:, -1] - srt[:, -2] < 1e-7) & (top > cosmax)).any():
+            return False, 0
+    r1 = pm.min()
+    rad = np.abs(r1 - qm)
+    winners = []
+    comp = 0
+    for k in set(best[top > cosmax].tolist()):
+        js = np.where((best == k) & (top > cosmax))[0]
+        comp = max(comp, len(js))
+        o = js[np.argsort(rad[js])]
+        if len(o) > 1 and rad[o[1]] - rad[o[0]] < 1e-7:
+            return False, comp
+        winners.append((int(o[0]), k))
+    if len(winners) < 3:
+        return False, comp
+    for j, k in winners:
+        if np.abs(Q[j] - Fm @ P[k]).max() > 1e-7:
+            return False, comp
+    sv = np.linalg.svd(np.array([Q[j] for j, _ in winners]), compute_uv=False)
+    return bool(sv[-1] > 0.05 * sv[0]), comp
+
+
+def _shells(ctx, caseseed, it, tie):
+    """G = F^-T at every atom when the reference set and the current neighbour list hold different numbers of complete
+    shells and theta_max lies between / beyond the inter-shell angles (several q compete for one p).
+    tie=True: the per-atom G against the Lean pairing loop + normal equations on the same inputs."""
+    np = _np()
+    import atomman as am
+    import warnings
+    rng = random.Random(caseseed)
+    c = _shells_case(rng)
+    s0, s1, nl0, nl1, F = c['s0'], c['s1'], c['nl0'], c['nl1'], c['F']
+    n = s0.natoms
+    theta = c['theta']
+    cosmax = _cosmax(theta)
+    supply = 'base' if tie else rng.choice(['base', 'base', 'shared', 'list'])
+    base = {'op': 'corr-shells' if tie else 'search-shells', 'caseseed': caseseed, 'it': it, 'crystal': c['name'], 'a': c['a'],
+            'size': list(c['size']), 'F': F, 'p_shells': c['kp'], 'q_shells': c['kq'], 'theta_max': theta,
+            'cutoff_p': c['cutp'], 'cutoff_q': c['cutq'], 'neighbour_order': c['order'], 'supply': supply}
+    pv = [np.atleast_2d(s0.dvect(i, nl0[i])).copy() for i in range(n)]
+
+    def build():
+        if supply == 'base':
+            return am.defect.Strain(s1, neighbors=nl1, basesystem=s0, baseneighbors=nl0, theta_max=theta)
+        if supply == 'shared':
+            return am.defect.Strain(s1, neighbors=nl1, p_vectors=pv[0].copy(), theta_max=theta)
+        return am.defect.Strain(s1, neighbors=nl1, p_vectors=[p.copy() for p in pv], theta_max=theta)
+    if supply == 'shared' and (not c['complete'] or len(pv[0]) in (1, n)):
+        supply = base['supply'] = 'base'
+    with warnings.catch_warnings():
+        warnings.simplefilter('ignore')
+        st = _guard(build)
+        G = st if isinstance(st, _Raised) else _guard(lambda: np.array(st.G))
+    canon = (c['name'], c['a'], tuple(c['size']), repr(F), c['kp'], c['kq'], theta, c['order'], supply)
+    ctx.stats.case(('shells:tie' if tie else 'oracle:shells') + f':p{c["kp"]}q{c["kq"]}', canon, sample=base)
+    if tie:
+        sel = _select(rng, n, 5)
+        line = (f'strain {cm.fr(cosmax)} {_cell(s0)} {_cell(s1)} {n} {cm.frs(s0.atoms.pos)} {cm.frs(s1.atoms.pos)} '
+                f'{_nlist_tokens(nl0, n)} {_nlist_tokens(nl1, n)} {_sel_tokens(sel)}')
+        out = ctx.driver.ask(line)
+        if isinstance(G, _Raised):
+            ctx.disagree('shells:raises', f'Strain raised {G.text}', base)
+            return
+        _cmp(ctx, 'Strain.G:shells', f'Strain.G (reference {c["kp"]} shells, current list {c["kq"]} shells, theta_max {theta})',
+             G[sel], out, False, base, atol=2e-9)
+        return
+    if isinstance(G, _Raised):
+        ctx.violate('shells:raises', f'Strain (reference {c["kp"]} shells, current list {c["kq"]} shells, theta_max={theta}) '
+                    f'raised {G.text}', base)
+        return
+    if not c['complete']:
+        ctx.extra['shells_incomplete'] = ctx.extra.get('shells_incomplete', 0) + 1
+        return
+    Fm = np.array(F)
+    exp = _exact_measures(_fr_mat(F), [[Fraction(int(i == j)) for j in range(3)] for i in range(3)])
+    claimed = np.zeros(n, dtype=bool)
+    comp = 0
+    for i in range(n):
+        P = pv[0] if supply == 'shared' else pv[i]
+        ok, k = _pairing_claim(P, np.atleast_2d(s1.dvect(i, nl1[i])), Fm, cosmax, np)
+        claimed[i] = ok
+        comp = max(comp, k)
+    ctx.extra['shells_competitors_max'] = max(ctx.extra.get('shells_competitors_max', 0), comp)
+    ctx.extra['shells_atoms_claimed'] = ctx.extra.get('shells_atoms_claimed', 0) + int(claimed.sum())
+    ctx.extra['shells_atoms_unclaimed'] = ctx.extra.get('shells_atoms_unclaimed', 0) + int((~claimed).sum())
+    if not claimed.any():
+        return
+    idx = np.where(claimed)[0]
+    k = _bad(G[idx].reshape(len(idx), 9), np.tile(exp['G'].ravel(), (len(idx), 1)), 2e-9)
+    if k is not None:
+        i = int(idx[k])
+        ctx.violate('shells:G', f'Strain.G[{i}] = {G[i].tolist()}, inverse transpose of F = {exp["G"].tolist()}: {c["name"]} '
+                    f'{c["size"]}, reference set of {c["kp"]} shell(s) ({len(pv[i])} vectors, {supply}), current neighbour list of '
+                    f'{c["kq"]} shell(s) ({len(nl1[i])} vectors, cutoff {c["cutq"]:.4f}), theta_max = {theta}: up to {comp} current '
+                    f'vectors compete for one reference vector; F = {F}', dict(base, atom=i))
+        return
+    if claimed.all():
+        for attr in ('strain', 'rotation', 'invariant1', 'invariant2', 'invariant3', 'nye'):
+            val = _guard(lambda: np.array(getattr(st, attr)))
+            if isinstance(val, _Raised):
+                ctx.violate('shells:raises', f'.{attr} raised {val.text}', base)
+                return
+            tolv = 1e-8 / c['a'] if attr == 'nye' else 2e-9
+            dv = np.abs(val - exp[attr]).reshape(n, -1).max(1)
+            if not np.isfinite(val).all() or dv.max() > tolv:
+                i = int(dv.argmax())
+                ctx.violate('shells:' + attr, f'Strain.{attr}[{i}] = {np.asarray(val)[i].tolist()}, from F^-T: '
+                            f'{np.asarray(exp[attr]).tolist()} (reference {c["kp"]} shells, current list {c["kq"]} shells, '
+                            f'theta_max = {theta})', dict(base, atom=i))
+                return
+
+
+# ----------------------------------------------------------------------------------------
+# non-homogeneous state: what follows from G (strain, rotation, invariants, Nye tensor) with an independent evaluation
+# ----------------------------------------------------------------------------------------
+_EPS3 = None
+
+
+def _nye_from_G(G, s1, nl1, np):
+    """alpha_jk = -eps_jim d_i G_mk, the gradient of G by least squares over the neighbour vectors (Hartley & Mishin)."""
+    global _EPS3
+    if _EPS3 is None:
+        e = np.zeros((3, 3, 3))
+        e[0, 1, 2] = e[1, 2, 0] = e[2, 0, 1] = 1.0
+        e[0, 2, 1] = e[2, 1, 0] = e[1, 0, 2] = -1.0
+        _EPS3 = e
+    n = len(G)
+    out = np.zeros((n, 3, 3))
+    for i in range(n):
+        js = np.asarray(nl1[i], dtype=int)
+        Q = np.atleast_2d(s1.dvect(i, js))
+        dG = G[js] - G[i]                                             # (c, m, k)
+        grad = np.linalg.lstsq(Q, dG.reshape(len(js), 9), rcond=None)[0].reshape(3, 3, 3)     # [i, m, k] = d_i G_mk
+        out[i] = -np.einsum('jim,imk->jk', _EPS3, grad)
+    return out
+
+
+def _search_field(ctx, caseseed, it):
+    """a sinusoidal SHEAR field on top of a homogeneous deformation (G varies, its gradient is not symmetric): strain,
+    rotation, invariants, angular velocity and Nye tensor as functions of the G the code returns; nye_tensor() =
+    Strain; joint translation, consistent renumbering and the order of the neighbours leave G and Nye unchanged."""
+    np = _np()
+    import atomman as am
+    import warnings
+    rng = random.Random(caseseed)
+    ref = _reference(rng, None, False)
+    s0, name, a, shells, size = ref
+    n = s0.natoms
+    cut = shells[0][0] * a
+    nl0 = s0.neighborlist(cutoff=cut)
+    F = _rand_F(rng, rng.choice(['general', 'rotation', 'strain']))
+    sfrac = s0.box.position_cartesian_to_relative(s0.atoms.pos)
+    kvec = np.array([rng.choice([0, 1, 1]) for _ in range(3)])
+    if not kvec.any():
+        kvec[rng.randrange(3)] = 1
+    amp = np.array([rng.uniform(-0.012, 0.012) * a for _ in range(3)])
+    kc = np.linalg.inv(s0.box.vects) @ kvec            # Cartesian wave vector (up to 2 pi): make the field a shear
+    amp = amp - 0.7 * kc * np.dot(amp, kc) / np.dot(kc, kc)
+    u = np.sin(2 * np.pi * (sfrac @ kvec + rng.uniform(0, 1)))[:, None] * amp[None, :]
+    t0 = _deform(s0, F)
+    s1 = _system(t0, t0.atoms.pos + u @ np.array(F).T)
+    s1.wrap()
+    nl1 = s1.neighborlist(cutoff=cut * 1.04)
+    base = {'op': 'search-field', 'caseseed': caseseed, 'it': it, 'crystal': name, 'a': a, 'size': list(size), 'F': F,
+            'k': kvec.tolist(), 'amplitude': amp.tolist(), 'cutoff': cut}
+    ctx.stats.case('oracle:field', (name, a, size, repr(F), tuple(kvec), tuple(amp)), sample=base)
+
+    def fail(key, what, **kw):
+        ctx.violate(key, what, dict(base, **kw))
+    with warnings.catch_warnings():
+        warnings.simplefilter('ignore')
+        st = _guard(lambda: am.defect.Strain(s1, neighbors=nl1, basesystem=s0, baseneighbors=nl0))
+        if isinstance(st, _Raised):
+            fail('field:raises', f'Strain raised {st.text}')
+            return
+        vals = {}
+        for attr, _ in _SPROPS:
+            v = _guard(lambda: np.array(getattr(st, attr)))
+            if isinstance(v, _Raised):
+                fail('field:raises', f'.{attr} raised {v.text}')
+                return
+            vals[attr] = v
+        G = vals['G']
+        I3 = np.identity(3)
+        E = (2 * I3 - G - np.transpose(G, (0, 2, 1))) / 2
+        R = (np.transpose(G, (0, 2, 1)) - G) / 2
+        want = {'strain': E, 'rotation': R, 'invariant1': np.trace(E, axis1=1, axis2=2),
+                'invariant2': (E[:, 0, 0] * E[:, 1, 1] + E[:, 0, 0] * E[:, 2, 2] + E[:, 1, 1] * E[:, 2, 2]
+                               - E[:, 0, 1] ** 2 - E[:, 0, 2] ** 2 - E[:, 1, 2] ** 2),
+                'invariant3': np.linalg.det(E),
+                'angularvelocity': np.sqrt(R[:, 0, 1] ** 2 + R[:, 0, 2] ** 2 + R[:, 1, 2] ** 2),
+                'nye': _nye_from_G(G, s1, nl1, np)}
+        for attr, w in want.items():
+            v = vals[attr]
+            tolv = 1e-10 / a if attr == 'nye' else 1e-12
+            if v.shape != w.shape or not np.isfinite(v).all() or np.abs(v - w).max() > tolv:
+                k = int(np.abs(v - w).reshape(n, -1).max(1).argmax()) if v.shape == w.shape else 0
+                fail('field:' + attr, f'Strain.{attr}[{k}] = {np.asarray(v)[k].tolist()}; from the G the object returns '
+                     f'(G[{k}] = {G[k].tolist()}) it follows as {np.asarray(w)[k].tolist()} ({name} {size}, sinusoidal shear '
+                     f'field k = {kvec.tolist()}, amplitude {amp.tolist()})', atom=k)
+        if np.abs(vals['nye']).max() < 1e-7:
+            ctx.extra['field_nye_trivial'] = ctx.extra.get('field_nye_trivial', 0) + 1
+        # the older function: same pipeline
+        if it % 2 == 0:
+            pv = [np.atleast_2d(s0.dvect(i, nl0[i])).copy() for i in range(n)]
+            old = _guard(lambda: am.defect.nye_tensor(s1, pv, neighbors=nl1))
+            if isinstance(old, _Raised):
+                fail('nye_tensor:raises', f'nye_tensor raised {old.text}')
+            else:
+                for nm, attr in (('strain', 'strain'), ('strain_invariant_1', 'invariant1'), ('strain_invariant_2', 'invariant2'),
+                                 ('strain_invariant_3', 'invariant3'), ('angular_velocity', 'angularvelocity'), ('Nye_tensor', 'nye')):
+                    tolv = 1e-9 / a if attr == 'nye' else 1e-10
+                    if np.shape(old[nm]) != vals[attr].shape or np.abs(old[nm] - vals[attr]).max() > tolv:
+                        fail('nye_tensor.' + nm, f'nye_tensor()[{nm!r}] differs from Strain.{attr} on the same inputs by '
+                             f'{np.abs(old[nm] - vals[attr]).max() if np.shape(old[nm]) == vals[attr].shape else "shape"}')
+        # order of the neighbours, joint translation, consistent renumbering
+        nl1s = _shuffled_nlist(am, rng, s1, nl1, n)
+        nl0s = _shuffled_nlist(am, rng, s0, nl0, n)
+        t = np.array([rng.choice([1, -1]) * rng.choice([0.0, 3.375, 1e3, 3e4]) for _ in range(3)])
+        s0t = _system(s0, s0.atoms.pos + t, origin=s0.box.origin + t)
+        s1t = _system(s1, s1.atoms.pos + t, origin=s1.box.origin + t)
+        perm = list(range(n))
+        rng.shuffle(perm)
+        inv = np.argsort(perm)
+        s0p = _system(s0, s0.atoms.pos[inv])
+        s0p.atoms.atype = s0.atoms.atype[inv]
+        s1p = _system(s1, s1.atoms.pos[inv])
+        s1p.atoms.atype = s0.atoms.atype[inv]
+        nl0p = _mk_nlist(am, s0p, [[int(perm[j]) for j in nl0[int(inv[kn])]] for kn in range(n)])
+        nl1p = _mk_nlist(am, s1p, [[int(perm[j]) for j in nl1[int(inv[kn])]] for kn in range(n)])
+        tolG = 1e-10 + 64 * 2.3e-16 * float(np.abs(t).max()) / a
+        for label, mk, back in (
+                ('the neighbours of every atom listed in another order', lambda: am.defect.Strain(s1, neighbors=nl1s, basesystem=s0, baseneighbors=nl0s), None),
+                (f'both systems translated by {t.tolist()}', lambda: am.defect.Strain(s1t, neighbors=nl1, basesystem=s0t, baseneighbors=nl0), None),
+                ('both systems renumbered consistently', lambda: am.defect.Strain(s1p, neighbors=nl1p, basesystem=s0p, baseneighbors=nl0p), perm)):
+            o = _guard(mk)
+            g2 = o if isinstance(o, _Raised) else _guard(lambda: (np.array(o.G), np.array(o.nye)))
+            if isinstance(g2, _Raised):
+                fail('field:invariance:raises', f'{label}: {g2.text}')
+                continue
+            G2, N2 = (g2[0], g2[1]) if back is None else (g2[0][back], g2[1][back])
+            if np.abs(G2 - G).max() > tolG:
+                k = int(np.abs(G2 - G).reshape(n, -1).max(1).argmax())
+                fail('field:invariance:G', f'G[{k}] changes by {np.abs(G2 - G).max():.3e} with {label}', atom=k,
+                     translation=t.tolist())
+            elif np.abs(N2 - vals['nye']).max() > 50 * tolG / a:
+                k = int(np.abs(N2 - vals['nye']).reshape(n, -1).max(1).argmax())
+                fail('field:invariance:nye', f'nye[{k}] changes by {np.abs(N2 - vals["nye"]).max():.3e} with {label}', atom=k,
+                     translation=t.tolist())
+
+
+# ----------------------------------------------------------------------------------------
+# where the neighbour list comes from: neighbors= / cutoff= / the system's `neighbors` attribute / refusal
+# ----------------------------------------------------------------------------------------
+def _pick_doc(nb, cu, att):
+    """documented precedence ('Either neighbors or cutoff must be given, or system must have a neighbors attribute')."""
+    if nb and cu:
+        return 'err:assert'
+    if nb:
+        return 'neighbors'
+    if cu:
+        return 'cutoff'
+    if att:
+        return 'attr'
+    return 'err:value'
+
+
+def _err_class(r):
+    return 'err:assert' if r.text.startswith('AssertionError') else 'err:value' if r.text.startswith('ValueError') else r.text
+
+
+_TWO_SHELLS = {'fcc': (0.85, 1.1), 'L12': (0.85, 1.1), 'bcc': (0.93, 1.2), 'B2': (0.93, 1.2)}
+
+
+def _sources(ctx, caseseed, it, tie):
+    """every analysis entry point x every combination of (neighbors= given, cutoff= given, system carries a
+    `neighbors` attribute) with three DIFFERENT lists behind the three sources: slip_vector, Strain (system's list and
+    basesystem's list), Strain.build_p_vectors, nye_tensor, differential_displacement, DifferentialDisplacement.
+    tie=True: the source the Lean model `pickNeighbors` / `strainSources` designates; tie=False: the documented one and
+    the property's value for it (rigid slip: count of neighbours across IN THE REQUESTED LIST x relative slip)."""
+    np = _np()
+    import atomman as am
+    import warnings
+    rng = random.Random(caseseed)
+    cname = rng.choice(sorted(_TWO_SHELLS))
+    c1f, c2f = _TWO_SHELLS[cname]
+    a = rng.choice([4.05, 3.3, 2.87, 4.0])
+    build = _crystals()[cname][0]
+    size = [3, 3, 3]
+    if rng.random() < 0.4:
+        size[rng.randrange(3)] += 1
+    s0 = build(a).supersize(*size)
+    sc = None
+    for _ in range(6):
+        sc = _slip_case(rng, s0, a, False, [(c2f, 0)])
+        if sc is not None and sc['stable']:
+            break
+        sc = None
+    if sc is None:
+        return
+    pbc = sc['pbc']
+    s0.pbc = pbc
+    n = s0.natoms
+    c1, c2 = c1f * a, c2f * a
+    du, side = sc['du'], sc['side']
+    s1 = _system(s0, s0.atoms.pos + du, pbc=pbc)
+    s1w = _inbox(s1, np)
+    if s1w is None:
+        return
+    mode = 'tie' if tie else 'oracle'
+    base = {'op': 'corr-sources' if tie else 'search-sources', 'caseseed': caseseed, 'it': it, 'crystal': cname, 'a': a,
+            'size': size, 'pbc': list(pbc), 'normal_axis': sc['axis'], 'plane': sc['mid'], 'u_above': sc['uA'].tolist(),
+            'u_below': sc['uB'].tolist(), 'cutoffs': [c1, c2]}
+    ctx.stats.case('sources:' + mode, (cname, a, tuple(size), pbc, sc['axis'], sc['mid'], tuple(sc['uA']), tuple(sc['uB'])),
+                   sample=base)
+
+    def report(key, what, **kw):
+        (ctx.disagree if tie else ctx.violate)(key, what, dict(base, **kw))
+
+    def lists_of(sysm, thin_seed):
+        la = _lists_of(sysm.neighborlist(cutoff=c1), n)
+        lb = _lists_of(sysm.neighborlist(cutoff=c2), n)
+        r2 = random.Random(thin_seed)
+        lc = [[j for j in l if (j > i or r2.random() < 0.3)] for i, l in enumerate(lb)]
+        if not any(lc):
+            lc = [l[:1] for l in lb]
+        return {'A': la, 'B': lb, 'C': lc}
+
+    def expected(nb, cu, att):
+        if tie:
+            return ctx.driver.ask(f'src {int(nb)} {int(cu)} {int(att)}')
+        return _pick_doc(nb, cu, att)
+    # three different lists behind the three sources ------------------------------------------------------
+    L0 = lists_of(s0, caseseed)
+    cutkey = rng.choice(['A', 'B'])
+    cutv = c1 if cutkey == 'A' else c2
+    attkey, nbkey = rng.sample([k for k in 'ABC' if k != cutkey], 2)
+    role = {'neighbors': nbkey, 'cutoff': cutkey, 'attr': attkey}
+    base['lists'] = {'neighbors=': nbkey, 'cutoff=': f'{cutv:.4f} ({cutkey})', 'attribute': attkey,
+                     'A': 'first shell', 'B': 'two shells', 'C': 'two shells, thinned'}
+    rel = np.where(side[:, None], sc['uA'] - sc['uB'], sc['uB'] - sc['uA'])
+
+    def obj(sysm, key, L):
+        return _mk_nlist(am, sysm, L[key])
+
+    def with_attr(sysm, att, L):
+        t = _system(sysm, sysm.atoms.pos.copy(), pbc=sysm.pbc)
+        if att:
+            t.neighbors = obj(t, role['attr'], L)
+        return t
+    combos = [(nb, cu, att) for nb in (False, True) for cu in (False, True) for att in (False, True)]
+    tolr = 1e-9 * float(np.abs(s0.box.vects).max())
+    # slip_vector ------------------------------------------------------------------------------------------
+    for nb, cu, att in combos:
+        exp = expected(nb, cu, att)
+        x0 = with_attr(s0, att, L0)
+        kw = {}
+        if nb:
+            kw['neighbors'] = obj(s0, role['neighbors'], L0)
+        if cu:
+            kw['cutoff'] = cutv
+        got = _guard(lambda: am.defect.slip_vector(x0, s1w, **kw))
+        call = f'slip_vector(system_0{" [carrying .neighbors]" if att else ""}, system_1' + ''.join(f', {k}=…' for k in kw) + ')'
+        if exp.startswith('err:'):
+            if not isinstance(got, _Raised) or _err_class(got) != exp:
+                report('sources:slip_vector:refusal', f'{call}: expected {"AssertionError" if exp == "err:assert" else "ValueError"}, got '
+                       f'{got.text if isinstance(got, _Raised) else "values"}', combo=[nb, cu, att])
+            continue
+        if isinstance(got, _Raised):
+            report('sources:slip_vector:raises', f'{call} raised {got.text}', combo=[nb, cu, att])
+            continue
+        lst = L0[role[exp]]
+        across = np.array([sum(1 for j in lst[i] if side[j] != side[i]) for i in range(n)])
+        want = across[:, None] * rel
+        k = _bad(got, want, tolr * 20) if got.shape == want.shape else 0
+        if k is not None:
+            report('sources:slip_vector', f'{call}: slip vector of atom {k} is {got[k].tolist()}; the list to use is the one of '
+                   f'{exp}{"=" if exp != "attr" else "ibute"} ({base["lists"][role[exp]]}): {int(across[k])} neighbours across x '
+                   f'{rel[k].tolist()} = {want[k].tolist()}', combo=[nb, cu, att], atom=k)
+    # differential displacement: function form (8 combinations) and class (the attribute is never a source) --------
+    I = J = None
+    if it % 2 == 0:
+        import matplotlib
+        matplotlib.use('Agg')
+        import matplotlib.pyplot as plt
+        big = float(np.abs(s0.box.vects).sum() + np.abs(s0.atoms.pos).max() + 10)
+        for nb, cu, att in combos:
+            exp = expected(nb, cu, att)
+            x0 = with_attr(s0, att, L0)
+            kw = {}
+            if nb:
+                kw['neighbors'] = obj(s0, role['neighbors'], L0)
+            if cu:
+                kw['cutoff'] = cutv
+            try:
+                got = _guard(lambda: am.defect.differential_displacement(x0, s1w, [1.0, 0.0, 0.0], return_data=True, xlim=(-big, big),
+                                                                         ylim=(-big, big), zlim=(-big, big), **kw))
+            finally:
+                plt.close('all')
+            call = f'differential_displacement(system_0{" [carrying .neighbors]" if att else ""}, system_1' + ''.join(f', {k}=…' for k in kw) + ')'
+            if exp.startswith('err:'):
+                if not isinstance(got, _Raised) or _err_class(got) != exp:
+                    report('sources:differential_displacement:refusal', f'{call}: expected {exp}, got '
+                           f'{got.text if isinstance(got, _Raised) else "values"}', combo=[nb, cu, att])
+                continue
+            if isinstance(got, _Raised):
+                report('sources:differential_displacement:raises', f'{call} raised {got.text}', combo=[nb, cu, att])
+                continue
+            data = got[1] if isinstance(got, tuple) else got
+            v = np.asarray(data['vectors'])
+            lst = L0[role[exp]]
+            I, J = _pairs(lst, n, np)
+            want = du[J] - du[I]
+            if v.shape != want.shape or np.abs(v - want).max() > tolr * 2:
+                report('sources:differential_displacement', f'{call}: {len(v)} vectors; the list of {exp} ({base["lists"][role[exp]]}) has '
+                       f'{len(want)} pairs' + ('' if v.shape != want.shape else f', vectors differ by {np.abs(v - want).max():.3e}'),
+                       combo=[nb, cu, att])
+    for how in ('neighbors', 'cutoff'):
+        x0 = with_attr(s0, True, L0)
+        x1 = _system(s1w, s1w.atoms.pos.copy(), pbc=pbc)
+        x1.neighbors = obj(x1, role['attr'], L0)
+        kw = {'neighbors': obj(s0, role['neighbors'], L0)} if how == 'neighbors' else {'cutoff': cutv}
+        got = _guard(lambda: am.defect.DifferentialDisplacement(x0, x1, reference=0, **kw).ddvectors)
+        lst = L0[role[how]]
+        I, J = _pairs(lst, n, np)
+        want = du[J] - du[I]
+        if isinstance(got, _Raised) or got.shape != want.shape or np.abs(got - want).max() > tolr * 2:
+            report('sources:DifferentialDisplacement', f'DifferentialDisplacement(systems carrying .neighbors, {how}=…, reference=0): '
+                   f'{got.text if isinstance(got, _Raised) else str(len(got)) + " vectors"}; the list of {how}= has {len(want)} pairs',
+                   how=how)
+    # Strain / build_p_vectors / nye_tensor on a NON-homogeneous state (G depends on the lists used) ----------------
+    F = _rand_F(rng, 'general')
+    s0f = _system(s0, s0.atoms.pos.copy(), pbc=(True, True, True))
+    sfrac = s0f.box.position_cartesian_to_relative(s0f.atoms.pos)
+    kvec = np.array([1, rng.choice([0, 1]), rng.choice([0, 1])])
+    uf = np.sin(2 * np.pi * (sfrac @ kvec + rng.uniform(0, 1)))[:, None] * np.array([rng.uniform(-0.01, 0.01) * a for _ in range(3)])
+    t0 = _deform(s0f, F)
+    t1 = _system(t0, t0.atoms.pos + uf @ np.array(F).T)
+    t1.wrap()
+    L1 = lists_of(t1, caseseed + 1)
+    Lb = lists_of(s0f, caseseed + 2)
+    pv1 = [np.atleast_2d(s0f.dvect(i, Lb['A'][i])).copy() for i in range(n)]
+    cache = {}
+
+    def explicit(syskey, basekey):
+        """G / p-vector counts / coordination of the explicit construction with the designated lists."""
+        if (syskey, basekey) not in cache:
+            if basekey is None:
+                e = am.defect.Strain(t1, neighbors=obj(t1, syskey, L1), p_vectors=[p.copy() for p in pv1])
+            else:
+                e = am.defect.Strain(t1, neighbors=obj(t1, syskey, L1), basesystem=s0f, baseneighbors=obj(s0f, basekey, Lb))
+            cache[(syskey, basekey)] = (np.array(e.G), [len(p) for p in e.p_vectors], np.array(e.neighbors.coord))
+        return cache[(syskey, basekey)]
+    flags = [(nb, cu, att, False, False, False) for nb, cu, att in combos]
+    more = [(nb, cu, att, True, bn, ba) for nb, cu, att in combos for bn in (False, True) for ba in (False, True)]
+    rng.shuffle(more)
+    flags += more[:10]
+    with warnings.catch_warnings():
+        warnings.simplefilter('ignore')
+        for nb, cu, att, bs, bn, ba in flags:
+            if tie:
+                exp = ctx.driver.ask(f'srcs {int(nb)} {int(cu)} {int(att)} {int(bs)} {int(bn)} {int(ba)}')
+            else:
+                e1 = _pick_doc(nb, cu, att)
+                e2 = _pick_doc(bn, cu, ba) if bs else 'none'
+                if bs and bn and cu:
+                    continue             # (baseneighbors together with the shared cutoff: not documented either way; tie only)
+                exp = e1 if e1.startswith('err:') else e2 if e2.startswith('err:') else (e1 + ' ' + ('baseneighbors' if e2 == 'neighbors' else e2))
+            x1 = with_attr(t1, att, L1)
+            xb = with_attr(s0f, ba, Lb)
+            kw = {}
+            if nb:
+                kw['neighbors'] = obj(t1, role['neighbors'], L1)
+            if cu:
+                kw['cutoff'] = cutv
+            if bs:
+                kw['basesystem'] = xb
+                if bn:
+                    kw['baseneighbors'] = obj(s0f, role['neighbors'], Lb)
+            else:
+                kw['p_vectors'] = [p.copy() for p in pv1]
+            call = (f'Strain(system{" [carrying .neighbors]" if att else ""}' + ''.join(f', {k}=…' for k in kw)
+                    + (' [basesystem carrying .neighbors]' if bs and ba else '') + ')')
+            got = _guard(lambda: am.defect.Strain(x1, **kw))
+            res = got if isinstance(got, _Raised) else _guard(lambda: (np.array(got.G), [len(p) for p in got.p_vectors],
+                                                                       np.array(got.neighbors.coord)))
+            if exp.startswith('err:'):
+                if not isinstance(got, _Raised) or _err_class(got) != exp:
+                    report('sources:Strain:refusal', f'{call}: expected {exp} from the constructor, got '
+                           f'{got.text if isinstance(got, _Raised) else "an object"}', flags=[nb, cu, att, bs, bn, ba])
+                continue
+            if isinstance(res, _Raised):
+                report('sources:Strain:raises', f'{call} raised {res.text}', flags=[nb, cu, att, bs, bn, ba])
+                continue
+            es, eb = exp.split()
+            eb = None if eb == 'none' else role['neighbors' if eb == 'baseneighbors' else eb]
+            wG, wp, wc = explicit(role[es], eb)
+            if list(res[2]) != list(wc):
+                report('sources:Strain:list', f'{call}: the object uses a list with coordination {sorted(set(res[2].tolist()))}; the list '
+                       f'to use is the one of {es} ({base["lists"][role[es]]}: {sorted(set(wc.tolist()))})', flags=[nb, cu, att, bs, bn, ba])
+            elif res[1] != wp:
+                report('sources:Strain:p_vectors', f'{call}: p vectors per atom {sorted(set(res[1]))}; the base list to use is the one of '
+                       f'{exp.split()[1]} ({sorted(set(wp))} per atom)', flags=[nb, cu, att, bs, bn, ba])
+            elif np.abs(res[0] - wG).max() > 1e-12:
+                report('sources:Strain:G', f'{call}: G differs by {np.abs(res[0] - wG).max():.3e} from the object built explicitly with '
+                       f'the lists of {exp}', flags=[nb, cu, att, bs, bn, ba])
+        # build_p_vectors on an existing object, nye_tensor()
+        for nb, cu, att in combos:
+            exp = expected(nb, cu, att)
+            xb = with_attr(s0f, att, Lb)
+            kw = {}
+            if nb:
+                kw['neighbors'] = obj(s0f, role['neighbors'], Lb)
+            if cu:
+                kw['cutoff'] = cutv
+            o = am.defect.Strain(t1, neighbors=obj(t1, 'A', L1))
+            got = _guard(lambda: o.build_p_vectors(xb, **kw))
+            call = f'build_p_vectors(basesystem{" [carrying .neighbors]" if att else ""}' + ''.join(f', {k}=…' for k in kw) + ')'
+            if exp.startswith('err:'):
+                if not isinstance(got, _Raised) or _err_class(got) != exp:
+                    report('sources:build_p_vectors:refusal', f'{call}: expected {exp}, got {got.text if isinstance(got, _Raised) else "no exception"}',
+                           combo=[nb, cu, att])
+            elif isinstance(got, _Raised):
+                report('sources:build_p_vectors:raises', f'{call} raised {got.text}', combo=[nb, cu, att])
+            else:
+                lst = Lb[role[exp]]
+                wantp = [np.atleast_2d(s0f.dvect(i, lst[i])) if len(lst[i]) else np.zeros((0, 3)) for i in range(n)]
+                gp = [np.atleast_2d(np.asarray(p, dtype=float)) if np.size(p) else np.zeros((0, 3)) for p in o.p_vectors]
+                badp = [i for i in range(n) if gp[i].shape != wantp[i].shape or (gp[i].size and np.abs(gp[i] - wantp[i]).max() > 1e-12)]
+                if badp:
+                    i = badp[0]
+                    report('sources:build_p_vectors', f'{call}: atom {i} gets {len(gp[i])} p vectors; the list to use is the one of {exp} '
+                           f'({len(wantp[i])} neighbours)', combo=[nb, cu, att], atom=i)
+            x1 = with_attr(t1, att, L1)
+            kw = {}
+            if nb:
+                kw['neighbors'] = obj(t1, role['neighbors'], L1)
+            if cu:
+                kw['cutoff'] = cutv
+            got = _guard(lambda: am.defect.nye_tensor(x1, [p.copy() for p in pv1], **kw))
+            call = f'nye_tensor(system{" [carrying .neighbors]" if att else ""}, p_vectors' + ''.join(f', {k}=…' for k in kw) + ')'
+            if exp.startswith('err:'):
+                if not isinstance(got, _Raised) or _err_class(got) != exp:
+                    report('sources:nye_tensor:refusal', f'{call}: expected {exp}, got {got.text if isinstance(got, _Raised) else "values"}',
+                           combo=[nb, cu, att])
+            elif isinstance(got, _Raised):
+                report('sources:nye_tensor:raises', f'{call} raised {got.text}', combo=[nb, cu, att])
+            else:
+                key = ('nye_tensor', role[exp])
+                if key not in cache:
+                    cache[key] = am.defect.nye_tensor(t1, [p.copy() for p in pv1], neighbors=obj(t1, role[exp], L1))
+                w = cache[key]
+                for nm in ('strain', 'Nye_tensor'):
+                    if np.shape(got[nm]) != np.shape(w[nm]) or np.abs(got[nm] - w[nm]).max() > 1e-12:
+                        report('sources:nye_tensor', f'{call}: {nm} differs by {np.abs(got[nm] - w[nm]).max():.3e} from the call with the '
+                               f'list of {exp} given explicitly', combo=[nb, cu, att])
+                        break
+
+
 def search(ctx, broken):
     rng = random.Random(ctx.seed * 7919 + 17)
     mult = 2 if broken else 1
@@ -2318,6 +3129,12 @@ def search(ctx, broken):
         _guarded_case(ctx, 'search', _strain_sequence, rng.getrandbits(48), it, False)
     for it in range(ctx.n(16, 80) * mult):
         _guarded_case(ctx, 'search', _dd_sequence, rng.getrandbits(48), it, False)
+    for it in range(ctx.n(14, 60) * mult):
+        _guarded_case(ctx, 'search', _shells, rng.getrandbits(48), it, False)
+    for it in range(ctx.n(8, 40) * mult):
+        _guarded_case(ctx, 'search', _search_field, rng.getrandbits(48), it)
+    for it in range(ctx.n(5, 30) * mult):
+        _guarded_case(ctx, 'search', _sources, rng.getrandbits(48), it, False)
 
 
 def _guarded_case(ctx, phase, f, caseseed, it, *more):
@@ -2334,8 +3151,9 @@ def _guarded_case(ctx, phase, f, caseseed, it, *more):
         import traceback
         tb = traceback.format_exc().strip().splitlines()
         op = {'_strain_sequence': 'sobj', '_dd_sequence': 'dobj', '_search_p_supply': 'search-psupply', '_corr_slip': 'corr-slip',
-              '_corr_strain': 'corr-strain', '_search_slip': 'search-slip', '_search_homog': 'search-homog'}.get(f.__name__, f.__name__)
-        if op in ('sobj', 'dobj'):
+              '_corr_strain': 'corr-strain', '_search_slip': 'search-slip', '_search_homog': 'search-homog',
+              '_shells': 'shells', '_sources': 'sources', '_search_field': 'search-field'}.get(f.__name__, f.__name__)
+        if op in ('sobj', 'dobj', 'shells', 'sources'):
             op = ('corr-' if more and more[0] else 'search-') + op
         (ctx.disagree if phase == 'corr' else ctx.violate)(
             'exception:' + op, f'{type(e).__name__}: {e} ({" | ".join(t.strip() for t in tb[-3:])})',
@@ -2364,6 +3182,12 @@ def replay(ctx, payload):
         _dd_sequence(ctx, r['caseseed'], r['it'], op == 'corr-dobj')
     elif op == 'search-psupply':
         _search_p_supply(ctx, r['caseseed'], r['it'])
+    elif op in ('corr-shells', 'search-shells'):
+        _shells(ctx, r['caseseed'], r['it'], op == 'corr-shells')
+    elif op in ('corr-sources', 'search-sources'):
+        _sources(ctx, r['caseseed'], r['it'], op == 'corr-sources')
+    elif op == 'search-field':
+        _search_field(ctx, r['caseseed'], r['it'])
     else:
         correspond(ctx)
         search(ctx, True)
@@ -2391,7 +3215,10 @@ MANIFEST = {
             'its eight cached quantities; after solve_G (with or without theta_max) on an object in ANY state every read '
             'returns the value determined by the current inputs alone, i.e. what a fresh object returns (solve_coherent, '
             'read_coherent, reads_after_solve); a DifferentialDisplacement object stores after a successful solve exactly '
-            'the vectors of its current systems and list, whatever it held before. The model is tied to the compiled/pure-python code by a differential '
+            'the vectors of its current systems and list, whatever it held before. The pairing loop is proved for any number of '
+            'competing vectors: no reference vector is paired twice and the winner is the competitor closest to the first-shell '
+            'radius, hence G = F^-T also when the current list holds more shells than the reference set. The source of the '
+            'neighbour list (neighbors=, cutoff=, attribute, refusal) is part of the model. The model is tied to the compiled/pure-python code by a differential '
             'run (exact on dyadic inputs) and the clauses are searched on the real code with an exact oracle.',
     'note': 'Partial: that a small deformation of a perfect crystal satisfies the pairing hypothesis of match_pq, and '
             'that numpy lstsq solves the normal equations, are checked on the implementation, not proved. Trusted: Lean '
